@@ -40,6 +40,7 @@ let show_peer (j : peer) : string =
     (match j.j_inflight with None -> "-" | Some (s, _) -> dec_of_n s)
     (csv_of_set j.j_set)
 
+let dec_lt a b = String.length a < String.length b || (String.length a = String.length b && a < b)
 let lineno = ref 0
 let case_id = ref "?"
 let n_cases = ref 0 and n_ops = ref 0 and n_obs = ref 0
@@ -55,8 +56,14 @@ let i_pub_seq = ref "" and i_pub_set = ref ""
 let i_init = ref ""
 
 let peer j = try Hashtbl.find m_peers j with Not_found -> peer_new
+(* progress oracle: per peer, the last observation (known, pending) and where the last answer came from *)
+let i_last : (string, string * string) Hashtbl.t = Hashtbl.create 7
+let i_ans_src : (string, string) Hashtbl.t = Hashtbl.create 7
+let last_op : string list ref = ref []
 
 let pfx_op (f : string list) =
+  last_op := f;
+  (match f with "ans" :: j :: src :: _ -> Hashtbl.replace i_ans_src j src | _ -> ());
   match f with
   | ["pa"; n] -> m_pub := announce (n_of_dec n) !m_pub
   | ["pw"; n] -> m_pub := withdraw (n_of_dec n) !m_pub
@@ -98,6 +105,16 @@ let pfx_obs (f : string list) =
          | Some s -> if s <> set then
              oracle "pfx-peer-set-differs-from-publisher-at-known"
                (Printf.sprintf "peer %s known=%s set=%s publisher-set-then=%s" j known set s));
+      (* progress: a snapshot answered by the publisher itself must move the peer forward (otherwise the two
+         thresholds do not fit and a peer that is far behind never catches up) *)
+      (match !last_op, Hashtbl.find_opt i_last j with
+       | "del" :: j' :: _, Some (k0, "snap") when j' = j && Hashtbl.find_opt i_ans_src j = Some "-" && (known <> k0 || pending <> "snap") ->
+           (* a delivery happened (state changed). If the peer really was more than the fetch threshold behind the
+              publisher's true number, the publisher's own snapshot must have moved it forward *)
+           if not (dec_lt k0 known) && dec_lt k0 !i_pub_seq && fetch_snap_test (n_of_dec !i_pub_seq) (n_of_dec k0) then
+             oracle "pfx-snapshot-does-not-advance-peer" (Printf.sprintf "peer %s known %s -> %s after a snapshot from the publisher at %s" j k0 known !i_pub_seq)
+       | _ -> ());
+      Hashtbl.replace i_last j (known, pending);
       (* ... in particular (extracted predicate peer_ok) equal to the current set once caught up *)
       if not (peer_ok (set_of_csv !i_pub_set) (n_of_dec !i_pub_seq) (n_of_dec known) (set_of_csv set)) then
         oracle "pfx-caught-up-peer-differs" (Printf.sprintf "peer %s known=%s set=%s publisher set=%s" j known set !i_pub_set)
@@ -247,7 +264,7 @@ let () =
       | "case" :: "pfx" :: k :: s0 :: _ ->
           kind := "pfx"; case_id := "pfx" ^ k; incr n_cases;
           m_pub := pub_new (n_of_dec s0);
-          Hashtbl.reset m_peers; Hashtbl.reset i_hist; i_init := s0
+          Hashtbl.reset m_peers; Hashtbl.reset i_hist; Hashtbl.reset i_last; Hashtbl.reset i_ans_src; i_init := s0
       | "case" :: "fib" :: k :: _ ->
           kind := "fib"; case_id := "fib" ^ k; incr n_cases;
           m_fib := fib_empty; m_rt := []; i_rt := []; m_cmds := []
